@@ -180,76 +180,88 @@ impl Matcher {
     }
 
     /// Sort transactions by date and merge same-day same-ticker buys/sells.
+    ///
+    /// All buys of one ticker on one date are merged into a single acquisition even
+    /// when other lines separate them, because TCGA92/S105(1)(a) treats the shares
+    /// acquired on one day as a single acquisition. Sells are merged when adjacent.
     fn preprocess(&self, mut transactions: Vec<GbpTransaction>) -> Vec<GbpTransaction> {
         transactions.sort_by(|a, b| a.date.cmp(&b.date));
 
-        let mut merged = Vec::new();
-        if transactions.is_empty() {
-            return merged;
-        }
+        let mut merged: Vec<GbpTransaction> = Vec::new();
+        // Index in `merged` where the current date starts
+        let mut day_start = 0;
 
-        let mut current = transactions[0].clone();
+        // Whether the previous input line was a sell of this (date, ticker)
+        let mut previous_sell: Option<(NaiveDate, String)> = None;
 
-        for next in transactions.into_iter().skip(1) {
-            if next.date == current.date && next.ticker == current.ticker {
-                match (&mut current.operation, next.operation) {
-                    (
-                        Operation::Buy {
-                            amount: current_amount,
-                            price: current_price,
-                            fees: current_fees,
-                        },
-                        Operation::Buy {
-                            amount: next_amount,
-                            price: next_price,
-                            fees: next_fees,
-                        },
-                    ) => {
-                        // Merge using GBP values (already Decimal)
-                        let total_cost =
-                            (*current_amount * *current_price) + (next_amount * next_price);
-                        *current_amount += next_amount;
-                        if *current_amount != Decimal::ZERO {
-                            *current_price = total_cost / *current_amount;
-                        }
-                        *current_fees += next_fees;
-                    }
-                    (
-                        Operation::Sell {
-                            amount: current_amount,
-                            price: current_price,
-                            fees: current_fees,
-                        },
-                        Operation::Sell {
-                            amount: next_amount,
-                            price: next_price,
-                            fees: next_fees,
-                        },
-                    ) => {
-                        // Merge using GBP values (already Decimal)
-                        let total_proceeds =
-                            (*current_amount * *current_price) + (next_amount * next_price);
-                        *current_amount += next_amount;
-                        if *current_amount != Decimal::ZERO {
-                            *current_price = total_proceeds / *current_amount;
-                        }
-                        *current_fees += next_fees;
-                    }
-                    (_, next_op) => {
-                        merged.push(current);
-                        current = GbpTransaction {
-                            date: next.date,
-                            ticker: next.ticker,
-                            operation: next_op,
-                        };
-                    }
+        for next in transactions {
+            if merged.last().is_some_and(|last| last.date != next.date) {
+                day_start = merged.len();
+            }
+
+            // Buys merge with any earlier buy of the ticker on this date; sells only with
+            // the sell on the line directly before (separate same-day sells stay separate legs).
+            let follows_same_sell = previous_sell
+                .as_ref()
+                .is_some_and(|(date, ticker)| *date == next.date && *ticker == next.ticker);
+            previous_sell = matches!(next.operation, Operation::Sell { .. })
+                .then(|| (next.date, next.ticker.clone()));
+            let target = match &next.operation {
+                Operation::Buy { .. } => merged[day_start..].iter_mut().find(|current| {
+                    current.ticker == next.ticker
+                        && matches!(current.operation, Operation::Buy { .. })
+                }),
+                Operation::Sell { .. } if follows_same_sell => {
+                    merged[day_start..].iter_mut().rev().find(|current| {
+                        current.ticker == next.ticker
+                            && matches!(current.operation, Operation::Sell { .. })
+                    })
                 }
-            } else {
-                merged.push(current);
-                current = next;
+                _ => None,
+            };
+
+            let Some(current) = target else {
+                merged.push(next);
+                continue;
+            };
+
+            match (&mut current.operation, next.operation) {
+                (
+                    Operation::Buy {
+                        amount: current_amount,
+                        price: current_price,
+                        fees: current_fees,
+                    },
+                    Operation::Buy {
+                        amount: next_amount,
+                        price: next_price,
+                        fees: next_fees,
+                    },
+                )
+                | (
+                    Operation::Sell {
+                        amount: current_amount,
+                        price: current_price,
+                        fees: current_fees,
+                    },
+                    Operation::Sell {
+                        amount: next_amount,
+                        price: next_price,
+                        fees: next_fees,
+                    },
+                ) => {
+                    // Merge using GBP values (already Decimal)
+                    let total_value =
+                        (*current_amount * *current_price) + (next_amount * next_price);
+                    *current_amount += next_amount;
+                    if *current_amount != Decimal::ZERO {
+                        *current_price = total_value / *current_amount;
+                    }
+                    *current_fees += next_fees;
+                }
+                _ => {}
             }
         }
-        merged.push(current);
 
         merged
     }
